@@ -107,6 +107,8 @@ def run(ctx, env):
         muts = l in sl.mut_borrowed
         # carried = assigned in the loop and (also defined before it or mutated in place)
         ty = body.local_ty(l)
+        while ty.startswith("std::option::Option<") and ty.endswith(">"):
+            ty = ty[len("std::option::Option<"):-1]     # `Option<Vec<u8>>` leftover buffer: still only the unparsed input
         carried = bool(outside) or muts
         # locals defined only inside the loop and consumed there are per-iteration temporaries
         if not carried and ty not in allowed_ty:
